@@ -950,6 +950,32 @@ func (w *World) Hostile() string {
 		w.C.Probe("hostile-long-literal")
 		return desc
 	}
+	if s.Chance(1, 40, "hostile-deep-expression") {
+		// an index on an expression of hundreds of thousands of terms (SQLite itself refuses anything
+		// deeper than 1000): a reader that turns the parsed expression back into text by
+		// recursion runs out of stack
+		tbl := m.TblName
+		if tbl == "" {
+			tbl = m.Name
+		}
+		// (three million terms end in a stack overflow; a tenth of that already keeps the
+		// recursive, concatenating AsString busy for minutes, which the watchdog reports -
+		// and leaves the fixed reader with a parse of a few hundred kilobytes)
+		n := 300000 + s.Draw(50000, "nterms")
+		var sql string
+		if s.Chance(1, 2, "nested-calls") {
+			n /= 2
+			sql = "CREATE INDEX hx ON " + gen.Quote(tbl) + " (" + strings.Repeat("abs(", n) + "1" + strings.Repeat(")", n) + ")"
+			desc = fmt.Sprintf("extra sqlite_master row: index hx on %s (abs(abs(... %d calls ...)))", tbl, n)
+		} else {
+			sql = "CREATE INDEX hx ON " + gen.Quote(tbl) + " (1" + strings.Repeat("+1", n) + ")"
+			desc = fmt.Sprintf("extra sqlite_master row: index hx on %s (1+1+... %d terms)", tbl, n)
+		}
+		w.Exec("INSERT INTO sqlite_master VALUES ('index', 'hx', ?, ?, CAST(? AS TEXT))", tbl, int64(m.Rootpage), []byte(sql))
+		w.C.Note("hostile schema: %s", desc)
+		w.C.Probe("hostile-deep-expression")
+		return desc
+	}
 	switch s.Draw(7, "hostilekind") {
 	case 0, 1: // hostile SQL text on a real object
 		sql := hostileSQL[s.Draw(len(hostileSQL), "hsql")]
